@@ -1,7 +1,7 @@
 """psv.props — which rules decide which property."""
 from . import core
 from .report import Check
-from .rules import cw, ed, mt, ts, vg, pm, ax, kb, dp, sg, uw, sm, fs, tc, ge
+from .rules import cw, ed, mt, ts, vg, pm, ax, kb, dp, sg, uw, sm, fs, tc, ge, nl
 from . import selftest
 
 
@@ -15,9 +15,12 @@ def c18(tier):
               assumptions=["extern \"C\" library functions (cfitsio, CHOLMOD, libc) do not raise C++ exceptions",
                            "libstdc++ algorithms on scalar ranges listed in core.NOTHROW_TABLE do not raise"])
     P = core.load(tier=tier, extra_units=selftest.UNITS)
-    selftest.run(P, C, ('cw1',))
+    selftest.run(P, C, ('cw1', 'nl1'))
     cw.run(P, C)
     C.extra["fitter_returns_checked"] = tc.run(P, C)
+    # the wrappers forward to member functions on tables built by any populating operation: none of them may trip over an array
+    # that such a table legitimately lacks (a crash is not a non-zero return)
+    nl.nl1(P, C)
     C.extra["units"] = sorted(P.units.keys())
     C.extra["functions_analysed"] = len(P.functions)
     return C.finish()
@@ -91,15 +94,18 @@ def c20(tier):
               explanation="Ownership typestate of splinetable<std::allocator<void>> decided on the instantiated bodies of every mutator "
               "(driver unit): no-throw window with resetting handlers / armed cleanup guards (TS-2), initialisation of owned-pointer arrays "
               "before the next raising element (TS-2b), emptiness guard before populating (TS-3), field coverage and count agreement of "
-              "clear(), move construction and move assignment (TS-4), local heap pairing (TS-5), release independent of ndim (TS-6). "
+              "clear(), move construction and move assignment (TS-4), local heap pairing (TS-5), release independent of ndim (TS-6), "
+              "nullable per-dimension arrays dereferenced only under a test (NL-1), count arrays allocated before the arrays they size (NL-2). "
               "Decides: a failed operation leaves the table unchanged or empty and destructible, a populated table is never overwritten, "
               "a moved-from table is empty, every allocation has a matching release. Does not decide behaviour over operation sequences "
               "against an abstract model, nor allocators with fancy pointers.",
               assumptions=["std::allocator semantics: deallocate does not raise",
                            "exceptions are raised only at the elements the effect summary marks (throw, operator new, calls to raising functions)"])
     P = core.load(tier=tier, extra_units=selftest.UNITS)
-    selftest.run(P, C, ('ts2',))
+    selftest.run(P, C, ('ts2', 'nl1'))
     ts.run_c20(P, C)
+    nl.nl1(P, C)
+    nl.nl2(P, C)
     C.extra["units"] = sorted(P.units.keys())
     C.extra["mutators"] = [ts.fshort(f) for f in ts.mutators(P)]
     return C.finish()
@@ -157,8 +163,9 @@ def c15(tier):
               "Does not decide the arithmetic of the coefficient transposition over runtime shapes, nor the inverse round trip.",
               assumptions=["extents may be null only for tables built by the stacking constructor; permuteDimensions assumes it is present"])
     P = core.load(tier=tier, extra_units=selftest.UNITS)
-    selftest.run(P, C, ('ts2',))
+    selftest.run(P, C, ('ts2', 'nl1'))
     pm.run(P, C)
+    nl.nl1(P, C, floor=8, only=("permuteDimensions",))
     ts.ts2(P, C, only=("permuteDimensions",), rule_floor=1)
     cw.cw1(P, C, only=("splinetable_permute",))
     cw.cw2(P, C, only=("splinetable_permute",))
